@@ -1,8 +1,8 @@
 SPECIFICATION Spec
 CONSTANTS
   Deviations <- AllDevs
-  Shapes <- ShapesQuick
-  FullRanks <- FullQuick
+  Shapes <- ShapesFull2
+  FullRanks <- Full2
 INVARIANT DesignOK
 INVARIANT DeviationsExplain
 INVARIANT Emit
